@@ -276,6 +276,10 @@ func builtinMakeValidator(env *lisp.LEnv, args *lisp.LVal) *lisp.LVal {
 		return lisp.ErrorConditionf(BadArgs, "Not enough arguments")
 	}
 	var name string
+	// tag is the type a validator made from a typedef stands for.  A
+	// tagged value of any OTHER type is not of the declared type, however well
+	// its contents would pass the constraints.
+	var tag string
 	switch lname.Type {
 	case lisp.LString:
 		name = lname.Str
@@ -284,6 +288,7 @@ func builtinMakeValidator(env *lisp.LEnv, args *lisp.LVal) *lisp.LVal {
 			return lisp.ErrorConditionf(BadArgs, "First argument must resolve to a string or typedef")
 		}
 		name = lname.UserData().Cells[0].Str
+		tag = name
 		taggedConstraints := []*lisp.LVal{typeValidator}
 		taggedConstraints = append(taggedConstraints, constraints...)
 		constraints = taggedConstraints
@@ -292,10 +297,20 @@ func builtinMakeValidator(env *lisp.LEnv, args *lisp.LVal) *lisp.LVal {
 		return lisp.ErrorConditionf(BadArgs, "First argument must resolve to a string or typedef")
 	}
 	res := getHandler(env, typeValidator, name, constraints)
-	if res != nil {
-		return res
+	if res == nil {
+		return lisp.Nil()
 	}
-	return lisp.Nil()
+	if tag != "" && res.Type != lisp.LError {
+		inner := res
+		// NB these aren't normal functions - they aren't looking for an array of args
+		return newValidator(lisp.Formals("input"), func(env *lisp.LEnv, input *lisp.LVal) *lisp.LVal {
+			if input.Type == lisp.LTaggedVal && input.Str != tag {
+				return lisp.ErrorConditionf(WrongType, "Input was a %s, not a %s", input.Str, tag)
+			}
+			return applyConstraint(env, inner, input)
+		})
+	}
+	return res
 }
 
 // finds the correct validation handler for the type
